@@ -94,7 +94,7 @@ theorem uadd_eq {a b : Nat} (h : a + b < 18446744073709551616) : uadd a b = a + 
 theorem usub_eq {a b : Nat} (h : b ≤ a) (ha : a < 18446744073709551616) : usub a b = a - b := by
   unfold usub; omega
 
-theorem usub_wrap {a b : Nat} (h : a < b) (hb : b ≤ 18446744073709551616) :
+theorem usub_wrap {a b : Nat} (h : a < b) (_hb : b ≤ 18446744073709551616) :
     usub a b = a + 18446744073709551616 - b := by
   unfold usub; omega
 
@@ -109,10 +109,6 @@ theorem umul_eq {a b : Nat} (h : a * b < 18446744073709551616) : umul a b = a * 
 
 theorem castU64_nonneg {v : Int} (h : 0 ≤ v) : castU64 v = v.toNat := by
   unfold castU64; simp [h]
-
-theorem castU64_neg {v : Int} (h : v < 0) (h2 : -18446744073709551616 ≤ v) :
-    castU64 v = (v + 18446744073709551616).toNat ∧ 9223372036854775808 ≤ castU64 v ∨ castU64 v = (v + 18446744073709551616).toNat := by
-  right; unfold castU64; simp [Int.not_le.mpr h]
 
 theorem castI32_small {v : Nat} (h : v < 2147483648) : castI32 v = (v : Int) := by
   unfold castI32
